@@ -3,7 +3,7 @@ From Coq Require Import List String.
 From VQ.Gen Require Import p_shapes.
 Import ListNotations.
 Open Scope string_scope.
-Lemma pin_p_shapes : p_shapes =
+Definition pinned_p_shapes : list string :=
   ["rotate_to.squeeze_args=1|";
    "rotate_to.pack=pack_one(src, '* d')";
    "rotate_to.return=inverse(rotated)";
@@ -22,4 +22,5 @@ Lemma pin_p_shapes : p_shapes =
    "ResidualSimVQ.null_loss = torch.full((), 0.0, device=device, dtype=x.dtype)";
    "vq.only_one = x.ndim == 2";
    "vq.loss = torch.tensor([0.0], device=device, requires_grad=self.training)"].
+Lemma pin_p_shapes : p_shapes = pinned_p_shapes.
 Proof. reflexivity. Qed.
